@@ -75,6 +75,8 @@ MonInit(S) ==
     anyHandOver |-> FALSE,                 \* a batch was handed to the HPC / a job was started
     marker    |-> FALSE,                   \* submitter.lock exists (marker events)
     sqfail    |-> {},                      \* pids whose scheduler query failed
+    sqlie     |-> FALSE,                   \* the scheduler answered a status query with an empty listing while batches
+                                           \* were active: JADE then believes them gone (limits and completeness are off)
     atPromo   |-> [p \in {} |-> <<>>],     \* pid -> job-status part of the status right after its promotion
     otherFaults |-> FALSE,                 \* a fault other than a failed scheduler query was injected
     rerun     |-> {},
@@ -197,7 +199,7 @@ OnSbatch(S, m, e) ==
                   IsInj(e.jobs) /\ \A j \in ToSet(e.jobs) \cap JobsOf(S) : m.placed[j] \subseteq {b})
       m3 == Check(m2, "NoSbatchAfterComplete", e.ok, ~(m.hasSt /\ m.st.complete))
       m4 == Check(m3, "NoSbatchAfterCancel", e.ok, ~m.cancelSeen)
-      m5 == Check(m4, "NodesBound", e.ok /\ S.maxnodes > 0, e.active <= S.maxnodes)
+      m5 == Check(m4, "NodesBound", e.ok /\ S.maxnodes > 0 /\ ~m.sqlie, e.active <= S.maxnodes)
       m6 == Check(m5, "GroupOptions", hasg, e.opts = g.opts /\ e.run = g.run)
       m7 == Check(m6, "DryRunNoSbatch", hasg, ~g.dry)
       m8 == BatchChecks(S, m7, e)
@@ -209,11 +211,13 @@ OnSbatch(S, m, e) ==
                 !.placed = [j \in JobsOf(S) |-> IF j \in ToSet(e.jobs) THEN @[j] \cup {b} ELSE @[j]]]
 
 OnHpc(S, m, e) ==
-  LET m1 == Check(m, "NodesBound", S.maxnodes > 0, e.active <= S.maxnodes)
+  LET m1 == Check(m, "NodesBound", S.maxnodes > 0 /\ ~m.sqlie, e.active <= S.maxnodes)
+      \* "walltime": the scheduler ended a batch whose runner did nothing but sleep (no job running, queued jobs never
+      \* becoming runnable) -- that is a consequence of what JADE did, not an injected fault
       bad == e.what \in {"kill", "timeout", "cancel"}
   IN [m1 EXCEPT !.active = e.active,
                 !.nodefault = @ \/ bad,
-                !.killedB = IF bad THEN @ \cup {e.b} ELSE @,
+                !.killedB = IF bad \/ e.what = "walltime" THEN @ \cup {e.b} ELSE @,
                 !.bstate = (e.b :> (CASE e.what = "start" -> "running" [] e.what = "end" -> "ended" [] OTHER -> "killed")) @@ @]
 
 OnLaunch(S, m, e) ==
@@ -373,13 +377,17 @@ OnSummary(S, m, e) ==
       \* (after a partial resubmission the untouched jobs keep whatever they had: the DAG reference speaks about epoch 0)
       a4 == Check(a3, "FinalResultsComplete", allran /\ m.epoch = 0, nset = J /\ miss = {})
       a5 == Check(a4, "FinalResultsMatchReference", allran /\ full /\ m.epoch = 0, \A j \in J : cls(j) = S.ref[j])
-      a6 == Check(a5, "FinishedKeepResults", m.epoch = 0, \A r \in m.appended : r[1] \in nset)
+      a6 == Check(a5, "FinishedKeepResults", m.epoch = 0 /\ ~m.sqlie, \A r \in m.appended : r[1] \in nset)
       a7 == Check(a6, "CanceledIff", allran /\ full /\ m.epoch = 0,
                   \A j \in J : (cls(j) = "canceled") <=>
                       (S.flag[j] /\ \E k \in BlkOf(S, j) : cls(k) \in {"failed", "canceled"}))
       a8 == Check(a7, "RanExactlyOnceUnlessCanceled", allran /\ full /\ m.epoch = 0,
                   \A j \in J : m.launches[j] = (IF cls(j) = "canceled" THEN 0 ELSE 1))
-      a9 == Check(a8, "FinalPlacement", allran /\ full /\ m.epoch = 0 /\ S.mode = "hpc",
+      \* C04 second half, stated without assuming the results are complete: a job that the DAG reference does not cancel
+      \* (no flag, or no failed/canceled blocker) was started -- whatever its blockers' outcomes were
+      a8b == Check(a8, "NotCanceledRuns", allran /\ m.epoch = 0,
+                   \A j \in J : S.ref[j] \in {"successful", "failed"} => m.launches[j] >= 1)
+      a9 == Check(a8b, "FinalPlacement", allran /\ full /\ m.epoch = 0 /\ S.mode = "hpc",
                   \A j \in J : IF cls(j) = "canceled" THEN Cardinality(m.placed[j]) <= 1 ELSE Cardinality(m.placed[j]) = 1)
       a10 == Check(a9, "AllRowsReported", allran /\ S.mode = "hpc",
                   \A r \in m.appended : (r[3] = "finished" => r \in m.reported))
@@ -400,8 +408,11 @@ OnSummary(S, m, e) ==
 \* one Cluster API operation by a handle (focused C10 runs): versions of the handle's copies and of the files when
 \* the operation got the lock, the exception it raised, whether any of the four files changed
 OnCop(S, m, e) ==
-  LET staleC == e.loaded /\ e.wcfg /\ e.hcver # e.dcver
-      staleJ == e.loaded /\ e.wjs /\ e.hjver # e.djver
+  LET \* out of date: somebody changed the state since this handle's copy was loaded or last written -- the version
+      \* file (dcver/djver) or the data file itself (ddcver/ddjver; they differ from the version files only after a
+      \* process was killed between the two writes of one update) shows another version than the copy
+      staleC == e.loaded /\ e.wcfg /\ (e.hcver # e.dcver \/ e.hcver # e.ddcver)
+      staleJ == e.loaded /\ e.wjs /\ (e.hjver # e.djver \/ e.hjver # e.ddjver)
       mism == e.exc \in {"ConfigVersionMismatch", "JobStatusVersionMismatch"}
       \* a stale handle changes nothing on disk; if its operation got as far as writing, it ends with the mismatch error
       \* (an operation that decides from its copy not to write at all, e.g. promote on a copy that shows a submitter,
@@ -433,6 +444,7 @@ OnFault(S, m, e) == [m EXCEPT !.faulty = TRUE, !.otherFaults = TRUE]
 OnNodeKill(S, m, e) == [m EXCEPT !.nodefault = TRUE]
 OnMarker(S, m, e) == [m EXCEPT !.marker = e.on]
 OnSqueue(S, m, e) == IF e.ok THEN m ELSE [m EXCEPT !.faulty = TRUE, !.sqfail = @ \cup {e.pid}]
+OnSqLie(S, m, e) == [m EXCEPT !.faulty = TRUE, !.otherFaults = TRUE, !.sqlie = TRUE]
 OnScancel(S, m, e) == [m EXCEPT !.scancelled = @ \cup {e.b}]
 
 OnEnd(S, m, e) ==
@@ -469,6 +481,7 @@ MonStep(S, m0, e) ==
     [] e.e = "promote"   -> OnPromote(S, m, e)
     [] e.e = "summary"   -> OnSummary(S, m, e)
     [] e.e = "squeue"    -> OnSqueue(S, m, e)
+    [] e.e = "sqlie"     -> OnSqLie(S, m, e)
     [] e.e = "scancel"   -> OnScancel(S, m, e)
     [] e.e = "cop"       -> OnCop(S, m, e)
     [] e.e = "hook"      -> OnHook(S, m, e)
@@ -486,9 +499,12 @@ MonSteps(S, m, es) == IF es = <<>> THEN m ELSE MonSteps(S, MonStep(S, m, Head(es
 \* The properties: which clauses make up each listed property.
 ClausesOf(c) ==
   CASE c = "C01" -> {"OnePlacement", "FreshBatchIndex", "OneLaunch", "FinalPlacement", "SbatchMatchesConfig", "LaunchInOwnBatch", "LaunchKnownJob"}
-    [] c = "C02" -> {"StartAfterBlockers"}
+    \* (the hand-over is C02's second mechanism: a node starts a job as soon as the list it was handed is empty, so a batch
+    \*  whose list omits a blocker without an outcome starts that job too early in some schedule)
+    [] c = "C02" -> {"StartAfterBlockers", "HandoverCoversUnfinished"}
     [] c = "C03" -> {"FinalResultsComplete", "FinalResultsMatchReference", "OneEntryPerJob", "LocalRunRecordsResults"}
-    [] c = "C04" -> {"CanceledShape", "CanceledNeverRuns", "CanceledOnlyIf", "CanceledIff", "RanExactlyOnceUnlessCanceled"}
+    [] c = "C04" -> {"CanceledShape", "CanceledNeverRuns", "CanceledOnlyIf", "CanceledIff", "RanExactlyOnceUnlessCanceled",
+                     "NotCanceledRuns"}
     [] c = "C05" -> {"QuiescentRoundProgress", "NoIdleLeftover", "CompleteHasAllResults", "SummaryBeforeFlag", "CompleteOnce",
                      "SummaryOnlyBeforeFlag",
                      "NoSbatchAfterComplete", "CompletesAfterRecovery"}
